@@ -134,3 +134,64 @@ def builder_imports(files: dict, input_names, enum_names):
                     elif a.name in enum_names and a.name not in ens:
                         ens.append(a.name)
     return ins, ens
+
+
+# ---- imports of input_types.py (C09 imports_cover_retained) ----
+PREAMBLE = ["typing:Optional", "typing:Any", "typing:Union", "typing:List", "typing:Annotated",
+            "pydantic:Field", "pydantic:PlainSerializer", ".base_model:BaseModel", ".base_model:Upload"]
+
+
+def import_items(text: str) -> list[str]:
+    """'module:name' for every name imported at the top level of a generated module (relative dots kept)."""
+    out = []
+    for node in ast.parse(text).body:
+        if isinstance(node, ast.ImportFrom):
+            mod = "." * node.level + (node.module or "")
+            out.extend(f"{mod}:{a.name}" for a in node.names)
+        elif isinstance(node, ast.Import):
+            out.extend(f":{a.name}" for a in node.names)
+    return out
+
+
+def class_needs(text: str) -> dict[str, list[str]]:
+    """class name -> import items its body refers to (names loaded anywhere in the class statement)."""
+    tree = ast.parse(text)
+    by_name = {}
+    for it in import_items(text):
+        by_name.setdefault(it.split(":", 1)[1], it)
+    out = {}
+    for node in tree.body:
+        if isinstance(node, ast.ClassDef):
+            used = []
+            for n in ast.walk(node):
+                if isinstance(n, ast.Name) and n.id in by_name and by_name[n.id] not in used:
+                    used.append(by_name[n.id])
+            out[node.name] = used
+    return out
+
+
+def scalar_items(cfg: dict) -> list[str]:
+    """import items one configured custom scalar contributes (dotted type / serialize / parse paths)."""
+    out = []
+    for key in ("type", "serialize", "parse"):
+        v = (cfg or {}).get(key)
+        if v and "." in v:
+            mod, obj = v.rsplit(".", 1)
+            out.append(f"{mod}:{obj}")
+    return out
+
+
+def input_scalar_items(schema, scalars_cfg: dict) -> dict[str, list[str]]:
+    """input type -> import items of the custom scalars its fields use (field order, duplicates kept)."""
+    from graphql import GraphQLScalarType
+
+    out = {}
+    for name, t in schema.type_map.items():
+        if isinstance(t, GraphQLInputObjectType) and not name.startswith("__"):
+            items = []
+            for f in t.fields.values():
+                nt = get_named_type(f.type)
+                if isinstance(nt, GraphQLScalarType) and nt.name in (scalars_cfg or {}):
+                    items.extend(scalar_items(scalars_cfg[nt.name]))
+            out[name] = items
+    return out
